@@ -97,6 +97,11 @@ func sliceCopy(dec *Decoder, o interface{}, p interface{}) {
 }
 
 func mapCopy(dec *Decoder, o interface{}, p interface{}) {
+	if reflect.TypeOf(o).Kind() == reflect.Map {
+		// the map itself, not a pointer to a map variable: its interface word is the map
+		reflect.ValueOf(p).Elem().Set(reflect.ValueOf(o))
+		return
+	}
 	reflect2.TypeOf(p).UnsafeSet(reflect2.PtrOf(p), reflect2.PtrOf(o))
 }
 
